@@ -16,7 +16,7 @@ from checks import wave_common as W
 PROP = 'C03'
 LEVEL = 'exploration'
 RULE = ('W1: every primitive (33 LUTs re-derived from the reference) x every tuple of input waveforms (initial value x subset of the time grid) x delay-table '
-        'combinations x output capacity {4,8,16}; W2: family circuits x {0,1,R,F}^n stimuli with times {1,3} and multi-transition inputs x delay plans with <= 1 '
+        'combinations x output capacity {4,8,16}; W2: family circuits x {0,1,R,F}^n stimuli with times {1,3} and multi-transition inputs (each case: a second stimulus round on the same simulator object) x delay plans with <= 1 '
         '(thorough 2) deviating lines x capacities (uniform 4/8/16, per-line patterns); oracle: initial value and initial-xor-parity of every waveform == Boolean '
         'function of the inputs\' initial/final values, terminator inside capacity, s[3]/s[6] agree; distinct_nontrivial = distinct (case, output waveform) signatures with >= 1 transition')
 ASSUMPTIONS = ['times and delays are small dyadic rationals (exact in float32/float64)', 'memory reuse off so every line can be decoded',
